@@ -4,10 +4,13 @@ from hypothesis import strategies as st
 
 from pbt import gen, oracles
 from pbt.props import _e1
+from pbt.run import Violation
 
 ID = 'C01'
 LEVEL = 'exploration'
-RULE = ('70% E1 histories (pure scheduler API) and 30% E2 histories (Master + ZkBackend + masterapi on the fake ZooKeeper, incl. reload/restore/restart paths of loader.py); E1 histories: generated topology/allocations + op list over the pure '
+RULE = ('10% unit-spelling cases (one quantity per dimension spelled 2-4 '
+        'equivalent ways through loader.resources / utils.megabytes / '
+        'size_to_bytes vs a reference parser); of the rest 70% E1 histories (pure scheduler API) and 30% E2 histories (Master + ZkBackend + masterapi on the fake ZooKeeper, incl. reload/restore/restart paths of loader.py); E1 histories: generated topology/allocations + op list over the pure '
         'scheduler API; after every cycle the per-server sums of declared '
         'demand are compared with declared capacity and free_capacity, and '
         'both placement views are cross-checked. Non-trivial = a history in '
@@ -30,8 +33,68 @@ PROFILE = {
 E2_PROFILE = {'weights': {'app': 14, 'down': 3, 'up': 3, 'reboot': 3, 'resize': 4, 'rmsrv': 2, 'srv': 2, 'restart': 2, 'repart': 1}, 'force': ['resize']}
 
 
+@st.composite
+def units_case(draw):
+    """One quantity per dimension, spelled in several equivalent ways."""
+    unit = draw(st.sampled_from([1, 1024, 1024 * 1024]))
+    mem = draw(st.integers(0, 4096)) * unit
+    disk = draw(st.integers(0, 4096)) * unit
+    cpu = draw(st.integers(0, 6400))
+    styles = draw(st.lists(st.integers(0, 11), min_size=2, max_size=4))
+    return {'engine': 'units', 'mem': mem, 'disk': disk, 'cpu': cpu,
+            'styles': styles, 'drop': draw(st.sampled_from(
+                [None, None, None, 'memory', 'cpu', 'disk']))}
+
+
 def strategy(tier):
-    return gen.tagged(PROFILE, E2_PROFILE, e2_share=3)
+    cells = gen.tagged(PROFILE, E2_PROFILE, e2_share=3)
+    return st.integers(0, 9).flatmap(
+        lambda k: units_case() if k == 0 else cells)
+
+
+def execute_units(case, stats):
+    """Capacities and demands mean the same quantity however they are
+    spelled: loader.resources() of every spelling equals the reference."""
+    from treadmill import utils
+    from treadmill.scheduler import loader
+    from pbt import mastersim
+    ref = [case['mem'], case['cpu'], case['disk']]
+    seen = []
+    for style in case['styles']:
+        record = {
+            'memory': mastersim.spell_mb(case['mem'], style),
+            'cpu': mastersim.spell_cpu(case['cpu'], style + 1),
+            'disk': mastersim.spell_mb(case['disk'], style + 2),
+        }
+        expect = list(ref)
+        if case['drop']:
+            record.pop(case['drop'])
+            expect[['memory', 'cpu', 'disk'].index(case['drop'])] = 0
+        try:
+            got = loader.resources(record)
+        except Exception as err:  # pylint: disable=broad-except
+            raise Violation('c01.units.rejected',
+                            'resources(%r) raised %r' % (record, err))
+        if list(got) != expect:
+            raise Violation(
+                'c01.units.value',
+                'resources(%r) = %r, the quantities are %r MB/%%/MB' %
+                (record, list(got), expect))
+        if 'memory' in record:
+            mbytes = utils.megabytes(record['memory'])
+            nbytes = utils.size_to_bytes(str(record['memory']).strip())
+            if mbytes != case['mem'] or nbytes != case['mem'] * 1024 * 1024:
+                raise Violation(
+                    'c01.units.utils',
+                    'megabytes(%r) = %r, size_to_bytes = %r, quantity is %r '
+                    'MB' % (record['memory'], mbytes, nbytes, case['mem']))
+        seen.append(canon_record(record))
+    stats.count('engine:units')
+    return len(set(seen)) >= 2 and any(ref)
+
+
+def canon_record(record):
+    return tuple(sorted((k, repr(v)) for k, v in record.items()))
 
 
 def watch(sim, info, flags):
@@ -51,5 +114,7 @@ def watch(sim, info, flags):
 
 
 def execute(case, stats):
+    if case.get('engine') == 'units':
+        return execute_units(case, stats)
     flags = _e1.run_case(case, stats, [oracles.c01], watch)
     return bool(flags.get('loaded') and flags.get('churn'))
